@@ -544,6 +544,17 @@ func (s *c02State) spec(b *types.Block, now int64, ex c02Exec) string {
 			return "tx-duplicate-in-block"
 		}
 		seen[tx.Hash()] = true
+		if tx.Type() == params.BoxTx {
+			// the transactions inside a box count too: the same signed tx must not take effect twice in one block
+			if box, err := types.GetBox(tx.Data()); err == nil {
+				for _, sub := range box.SubTxList {
+					if seen[sub.Hash()] {
+						return "tx-duplicate-in-block"
+					}
+					seen[sub.Hash()] = true
+				}
+			}
+		}
 	}
 	for _, old := range s.chainTxs {
 		if seen[old.Hash()] && s.onAncestorPath(parent, old) {
@@ -1390,6 +1401,33 @@ func c02Campaign(c *Ctx) {
 				} else {
 					c.Count("miner-dropped-duplicate-tx")
 				}
+			}
+		}
+		// a block whose ONLY transaction is a box that carries the same signed sub-tx twice (or a box next to a
+		// standalone copy of its sub-tx): consistent, in turn — only the duplicate scan over tx AND sub-tx hashes rejects it
+		if c.Rnd.Intn(5) == 0 {
+			s.txSeq++
+			sub := txTransfer(w.FounderKey, keyAddr(s.users[1]), lemo(2), TxOpt{Exp: uint64(t) + 60, Msg: fmt.Sprintf("dbx-%d", s.txSeq)})
+			var list types.Transactions
+			name := "lone-box-repeats-sub-tx"
+			switch c.Rnd.Intn(3) {
+			case 0:
+				list = types.Transactions{txBox(w.FounderKey, types.Transactions{sub, sub}, TxOpt{Exp: uint64(t) + 60, Msg: fmt.Sprintf("dbx-box-%d", s.txSeq)})}
+			case 1:
+				other := txTransfer(w.FounderKey, keyAddr(s.users[2%len(s.users)]), lemo(1), TxOpt{Exp: uint64(t) + 90, Msg: fmt.Sprintf("dbx-o-%d", s.txSeq)})
+				list = types.Transactions{txBox(w.FounderKey, types.Transactions{sub, other, sub}, TxOpt{Exp: uint64(t) + 60, Msg: fmt.Sprintf("dbx-box-%d", s.txSeq)})}
+				name = "lone-box-repeats-sub-tx-apart"
+			default:
+				list = types.Transactions{txBox(w.FounderKey, types.Transactions{sub}, TxOpt{Exp: uint64(t) + 60, Msg: fmt.Sprintf("dbx-box-%d", s.txSeq)}), sub}
+				name = "box-and-standalone-copy"
+			}
+			if db, _, err := n.Build(parent, t, list, nil); err == nil && len(db.Txs) == len(list) {
+				c.Count("miner-built-dup:" + name)
+				deputynode.SetSelfNodeKey(observer)
+				s.runCase(db, "miner-built-dup:"+name, false, probe)
+				cases++
+			} else {
+				c.Count("miner-dropped-dup:" + name)
 			}
 		}
 		// blocks assembled by the MINER path (which never looks at expirations) around one transaction that is
